@@ -44,7 +44,8 @@ func init() {
 	register("C09", "C15.R6", ruleStateF13)
 	register("C19", "C15.R6", ruleStateF13)
 	register("C10", "C15.R6", ruleStateF13)
-	register("C19", "C12.R6", ruleC12R6) // attribution: the label values a record is counted under are keyed by strings of the record
+	register("C12", "C15.R6", ruleStateF13) // "the output depends only on that record and the configuration"
+	register("C19", "C12.R6", ruleC12R6)    // attribution: the label values a record is counted under are keyed by strings of the record
 }
 
 type stateField struct {
@@ -609,4 +610,19 @@ func withField(m map[string]bool, n string) map[string]bool {
 		out[k] = v
 	}
 	return out
+}
+
+// Cross-registrations found with tools/seed_matrix.sh (every stored seed against every property): a rule that carries a
+// clause of another property's statement is run for that property too.
+func init() {
+	register("C01", "C02.R2", ruleC02R2) // "never lost": the chunk confirmed (and deleted) is the chunk the ACK names
+	register("C01", "C11.R1", ruleC11R1) // "never lost": every stream is written into a chunk exactly once
+	register("C01", "C04.R1", ruleC04R1) // "never … altered": short writes
+	register("C01", "C04.R2", ruleC04R2) // "never … altered": atomic publish
+	register("C01", "C04.R5", ruleC04R5) // "never … altered": a failed write is not reported as saved
+	register("C03", "C04.R1", ruleC04R1) // "byte-for-byte unchanged"
+	register("C03", "C04.R2", ruleC04R2)
+	register("C03", "C04.R5", ruleC04R5)
+	register("C02", "C05.R3", ruleC05R3)   // "retransmitted, oldest first": leftovers are sorted by id
+	register("C19", "C03.R10", ruleC03R10) // the persistent byte gauge moves only with the files
 }
